@@ -519,6 +519,7 @@ pub fn check(tier: &str, seed: u64) -> i32 {
     exhaustive.extend(crongen::exhaustive_pairs());
     exhaustive.extend(crongen::boundary_numerics());
     exhaustive.extend(crongen::near_step_family());
+    exhaustive.extend(crongen::long_list_family());
     let (n_random, n_bases): (u64, u64) = match tier {
         "quick" => (2_000, 200),
         _ => (100_000, 20_000),
